@@ -5,7 +5,6 @@ import framework as fw
 import relational
 
 ALGOS = ["T_HOO", "HCT", "VHCT", "Zooming", "POO", "GPO", "PCT", "VPCT", "SOO", "DOO", "StoSOO", "SequOOL", "VROOM", "StroquOOL"]
-LEAN_EXTRA = ["PyXABProofs.Props.C06"]
 GROUP = relational.c14_group
 PID = "C14"
 RULE = ("for each algorithm: (a) the documented loop twice with the REAL NumPy generator and np.random.seed(s): identical points and recommendation; (b) two independently constructed instances (same or different algorithm) on partitions whose geometry does not depend on the generator state, interleaved round by round and in random bursts, vs each alone (VROOM excluded: it samples in every pull); (c) deep comparison of the user's domain object before/after; plus the patched-RNG lock-step comparison of the base run with the Lean model; non-trivial = group where (a) ran; distinct = distinct configuration")
